@@ -20,6 +20,15 @@ def _walk(task):
         return guarded(_reraise)
 
 
+def _tb(task):
+    from fam import tbcheck
+    try:
+        return tbcheck.testbench(**task)
+    except Exception:
+        from vlib.guard import guarded
+        return guarded(_reraise)
+
+
 def _rom(task):
     import traceback
     from fam import memcheck
@@ -148,6 +157,24 @@ def run(ctx):
                bound='every address of an 8-word ROM; list/dict/function/padded data; 3 simulators; '
                      'plain/synthesized/optimized; data widths up to 70 bits; each ROM rebuilt twice in one '
                      'process under the same name with different contents', sample=rtasks[0])
+    # the initial contents a simulation started from, as recorded for the testbench, are not disturbed by the
+    # writes of the run (each simulator keeps its own record)
+    ttasks = [dict(design=d, simname=s, seed=ctx.seed, add_reset=True, init_mode=im, default_value=0)
+              for d in ({'name': 'mem_rw', 'params': {}}, {'name': 'mem_two_writes', 'params': {}},
+                        {'name': 'mem_chain', 'params': {}})
+              for s in SIMS for im in (1, 2)]
+    tres = passcheck.pmap(_tb, ttasks)
+    for t, r in zip(ttasks, tres):
+        if r.get('crashed'):
+            ctx.crashes.append('C08.initial_contents: ' + r['observed'][-400:])
+        elif r['failed']:
+            ctx.confirm_and_report('C08.initial_contents[%s %s init=%d]' % (t['simname'], t['design']['name'], t['init_mode']),
+                                   'call', dict(module='fam.tbcheck', func='testbench', kwargs=t),
+                                   canonical_input=t, function='pyrtl.simulation / output_verilog_testbench',
+                                   text='recorded initial memory contents differ from what the simulation started from')
+    ctx.family('C08.initial_contents', 'B', instances=len(ttasks), evaluations=len(ttasks), nontrivial=len(ttasks),
+               bound='3 memory designs x 3 simulators x 2 initial-state modes: testbench initial words vs the '
+                     'memory_value_map the run started from, after a run with writes', sample=ttasks[0])
     ctx.assume('Verilog memory emission is covered by C05; multi-port/wide memories in the C02/C03/C04 families')
     return ctx.finish('proof', './check C08',
                       ['z3', 'pyvc', 'int theory of DESIGN 3.2'],
